@@ -190,6 +190,10 @@ def coincide(rng, name, p, ins, meta):
         meta['inside'] = all(xs[0] <= v <= xs[-1] for v in ins[0])
     if name in ('BankErosion', 'USLEFineSedimentGeneration', 'DynamicSednetGully'):
         ins[0] = normal_only(ins[0])
+    if name == 'USLEFineSedimentGeneration':
+        # rain is the base of a power as well; "the next float above RainThreshold" is the subnormal 5e-324 when the
+        # threshold is 0 (see normal_only: Go's math.Log is wrong for subnormal arguments)
+        ins[2] = normal_only(ins[2])
     return ins, labels
 
 
